@@ -5,7 +5,7 @@
    every theorem below is re-checked against what the code says today. *)
 From FRP Require Import Model.Literals Model.CfgMsg Model.CfgWire Model.Validate
   Model.FlagsCheck Model.Template Proofs.CfgMsgProofs Proofs.ValidateProofs Proofs.LiteralsProofs Proofs.FlagsProofs
-  Proofs.TemplateProofs gen.GenMsg gen.GenCfgMsg gen.GenFlags Golden.GoldenFlags.
+  Proofs.TemplateProofs Model.StrictLoad Proofs.StrictLoadProofs gen.GenMsg gen.GenCfgMsg gen.GenFlags gen.GenLoadShape Golden.GoldenFlags.
 Open Scope Z_scope.
 
 (* ---- the registration message loses nothing the server acts on ---- *)
@@ -83,6 +83,42 @@ Print Assumptions C18_no_acted_field_dropped.
 Theorem C18_newproxy_is_wire_schema : newproxy_matches_schema cfg_structs structs = true.
 Proof. vm_compute. reflexivity. Qed.
 Print Assumptions C18_newproxy_is_wire_schema.
+
+(* ---- strict mode, for every schedule of loads in one process ---- *)
+
+(* Reflective, over today's source (gen/GenLoadShape.v): in config.LoadConfigure the mutex is taken before
+   the package-level switch v1.DisallowUnknownFields is written and released only after the decode (the
+   Unlock is deferred / follows the last decode call); LoadConfigure is the only writer of the switch and the
+   only user of the mutex; every reader of the switch is an UnmarshalJSON method of package v1, i.e. runs
+   inside a decode. *)
+Theorem C18_load_lock_discipline : sl_discipline_ok load_events switch_uses mutex_uses = true.
+Proof. vm_compute. reflexivity. Qed.
+Print Assumptions C18_load_lock_discipline.
+
+(* For the loader program derived from today's LoadConfigure, any number of loads (strict or not, with
+   unknown keys at the top level and/or in any nested typed element — proxies[i], visitors[i], their
+   plugin tables), any initial value of the switch and EVERY interleaving of their atomic steps: no crash,
+   each goroutine keeps its load, and every load that has returned answered "rejected" exactly when it was
+   strict and its document has an unknown key at some level.  In particular a strict load rejects an
+   unknown key at every nesting level whatever runs concurrently, and a non-strict load never rejects. *)
+Theorem C18_strict_every_level_all_schedules : forall sw0 loads sched,
+  let s := sl_run sched (sl_init (sl_prog_of load_events false) sw0 loads) in
+  sl_crashed s = false /\
+  map sl_ld (sl_ths s) = loads /\
+  forall i t, nth_error (sl_ths s) i = Some t -> sl_todo t = [] -> sl_rej t = sl_verdict (sl_ld t).
+Proof. exact (strict_all_schedules_of_discipline load_events switch_uses mutex_uses
+                (eq_refl true <: sl_discipline_ok load_events switch_uses mutex_uses = true)). Qed.
+Print Assumptions C18_strict_every_level_all_schedules.
+
+(* why the lock has to cover the decode: with the Unlock right after the write of the switch there is an
+   interleaving in which a strict load returns "accepted" for a document with an unknown nested key *)
+Theorem C18_early_unlock_refuted :
+  exists sched,
+    let s := sl_run sched (sl_init [ILock; ISet; IUnlock; IDecode] false
+                             [mk_sl_load true false [true]; mk_sl_load false false []]) in
+    exists t, nth_error (sl_ths s) 0 = Some t /\ sl_todo t = [] /\ sl_rej t = false /\ sl_verdict (sl_ld t) = true.
+Proof. exact early_unlock_refuted. Qed.
+Print Assumptions C18_early_unlock_refuted.
 
 (* ---- command-line flags ---- *)
 
